@@ -117,7 +117,13 @@ CHECKS["C10"] = dict(
     note="Trusted: TLC, virtual loop accounting. 'Promptly' = 0.3 s after a reset returned (discovery resources: the discovery timeout), 1 s after exit. Known finding D7b (exit without reset leaves the connection endpoint open); D7, D15, D19 were found and fixed.",
     design="§4 C10")
 
-NOT_YET = {"C13": "check not built yet (facade command semantics against an apply-and-echo spa model); planned next"}
+CHECKS["C13"] = dict(
+    technique="command semantics specified in TLA+ over BitField.Write (C13_Judge) with a spa model (apply / toggle / derived state / echo); real async and blocking facades driven against the real simulator extended by an apply-and-echo peer; every command record judged by TLC",
+    text="For every snapshot configuration, every pump mode, blower/light/eco on and off from both prior states (repeated to exercise idempotence), target temperatures, unit changes and water-care modes are issued through the real facade on the real async spa (virtual loop) and through the blocking facade on the stepped engine; the peer decodes the command datagrams with the real pack-command handler, applies them to the simulator's block, derives the output state and echoes partial updates (its actions are part of each record). TLC judges: nothing sent when already in the requested state, otherwise exactly one SPACK with a command-range sequence number, the connected pack's type and config/log versions, the right key code or (pos, len, word = Write(existing, shape, value)), SETWC in the protocol range, and the requested value read back by the client after the echo.",
+    note="Trusted: TLC, W1/W2 doubles, the apply-and-echo spa model (key press toggles OFF <-> first other label; output state follows the demand). The blocking water-care set is fire-and-forget and not judged. Snapshot configurations do not include inXM log 4/5, where the eco switch's item is read-only (noted in DESIGN.md).",
+    design="§4 C13")
+
+NOT_YET = {}
 
 
 def main():
